@@ -86,7 +86,7 @@ PROPS = {
                 legs={"quick": [N], "thorough": [N, ASAN(0.02, shards=8), MIRI(0.0005, shards=16, **{"max-len": 12})]},
                 gates=[("counter_min", "guess_is_last_index", 1), ("counter_min", "guess_misses_binary_search", 1000),
                        ("counter_min", "lookups_via_interp1d", 1000), ("counter_min", "lookups_via_interp2d", 100),
-                       ("hist_keys_min", "axis_class", 10), ("hist_keys_min", "elem", 4)],
+                       ("hist_keys_min", "axis_class", 11), ("hist_keys_min", "elem", 4)],
                 assumptions=["oracle = std partition_point (independent search), cross-checked by linear scan on short axes",
                              "exhaustive part: every (len <= 40, guess position, rank); random part sampled"]),
     "C10": dict(bin="c10", oracle=False, exhaustive=True,
